@@ -50,8 +50,10 @@ def plan(prop, tier):
     if prop == "C05":
         P["exhaustive"] = [("c05_crash", C(MaxCrashes=1, MaxBatches=3, MaxReopens=1, Kinds='{"append","full","partial"}'), SAFETY, ACTIONS),
                            ("c05_crash_nosync", C(MaxCrashes=1, MaxBatches=3, NoSync="TRUE"), SAFETY, ACTIONS)]
-        P["sim"] = [("c05_walk", C(MaxCrashes=2, MaxBatches=5, SimLen=16, MaxReopens=1), 300 if q else 3000, 8),
-                    ("c05_walk_nosync", C(MaxCrashes=2, MaxBatches=5, SimLen=16, NoSync="TRUE"), 100 if q else 1000, 8)]
+        # (one crash per behaviour: the materialiser rebuilds an image from the file operations recorded since the
+        # directory was created, which a second crash -- on top of a materialised image -- does not have)
+        P["sim"] = [("c05_walk", C(MaxCrashes=1, MaxBatches=5, SimLen=16, MaxReopens=1), 300 if q else 3000, 8),
+                    ("c05_walk_nosync", C(MaxCrashes=1, MaxBatches=5, SimLen=16, NoSync="TRUE"), 100 if q else 1000, 8)]
         P["leads"] = [("c05_lead_scan", C(MaxCrashes=1, MaxBatches=3), ["ScanStopsOnShortRead"], ["LeadAtLeastSynced", "LeadOpenNeverFails"], 8),
                       ("c05_lead_hdr", C(MaxCrashes=1, MaxBatches=3), ["BadHeaderAbortsOpen", "NoValidFileFailsOpen"], ["LeadOpenNeverFails"], 4),
                       # images in which a footer survives while the data it points to is lost: legal only if the
